@@ -133,6 +133,10 @@ func (r *runner) run() {
 	if b.Fine && b.Family != "data" && b.Family != "intertx" {
 		fineSeed = 2*b.Seed + 1
 	}
+	rateDecimals = 6
+	if b.Render == 1 {
+		rateDecimals = 30
+	}
 	if b.Unit == "" {
 		b.Unit = "1000000"
 	}
